@@ -51,6 +51,27 @@ type Case15 struct {
 	Universe [][]string `json:"universe"`
 	Ignored  [][]string `json:"ignored"`
 	Loadable bool       `json:"loadable"`
+	List     PkgList15  `json:"list"`
+}
+
+// PkgList15: one action.Package value / one `helm package` command line for several charts
+type PkgList15 struct {
+	Vers  []string `json:"vers"` // version token of each chart (va, vb)
+	Apps  []string `json:"apps"` // appVersion token of each chart (aa, ab)
+	VFlag bool     `json:"vflag"`
+	AFlag bool     `json:"aflag"`
+	Route string   `json:"route"` // action | cmd
+}
+
+// PkgListObs: what came out for the j-th chart of the list (tokens: va vb vflag / aa ab aflag / other / none)
+type PkgListObs struct {
+	Err     bool       `json:"err"`
+	Msg     string     `json:"msg"`
+	NameOk  bool       `json:"nameOk"`
+	FileVer string     `json:"fileVer"` // version in the name of the archive written for this chart
+	MetaVer string     `json:"metaVer"` // version in the loaded Chart.yaml
+	MetaApp string     `json:"metaApp"`
+	Diffs   []DiffItem `json:"diffs"` // everything else, against LoadDir of the chart's directory
 }
 
 // ---- observations -----------------------------------------------------------------------------------
@@ -106,6 +127,10 @@ type Obs15 struct {
 	ArchNames [][]string `json:"archNames"` // ... of LoadArchive(tar(d))
 	PkgNames  [][]string `json:"pkgNames"`  // ... of the entries of the archive written by action.Package
 	PkgDiffer [][]string `json:"pkgDiffer"` // kept files whose bytes differ between d and the package (Chart.yaml is re-marshalled: excluded)
+
+	// list of charts through one Package value
+	List    PkgList15    `json:"list"`
+	PkgList []PkgListObs `json:"pkgList"`
 }
 
 func newOp() OpObs { return OpObs{Diffs: []DiffItem{}} }
@@ -576,7 +601,13 @@ func RunCase15(c Case15, seed int64, rep int, base string) Obs15 {
 	r := rand.New(rand.NewSource(seedFor(seed, c.ID, rep, "c15")))
 	o := Obs15{ID: c.ID, Rep: rep, Fam: c.Fam, Chart: c.Chart, SaveLoad: newOp(), SaveDir: newOp(), DirArch: newOp(), Package: newOp(),
 		PkgHas: []string{}, Name: c.Name, Version: c.Version, Rules: c.Rules, DirNames: [][]string{}, ArchNames: [][]string{},
-		PkgNames: [][]string{}, PkgDiffer: [][]string{}}
+		PkgNames: [][]string{}, PkgDiffer: [][]string{}, List: c.List, PkgList: []PkgListObs{}}
+	if o.List.Vers == nil {
+		o.List.Vers = []string{}
+	}
+	if o.List.Apps == nil {
+		o.List.Apps = []string{}
+	}
 	if o.Rules == nil {
 		o.Rules = []Rule15{}
 	}
@@ -590,6 +621,8 @@ func RunCase15(c Case15, seed int64, rep int, base string) Obs15 {
 		runInvalid(c, r, work, &o)
 	case "ignore":
 		runIgnore(c, r, work, &o)
+	case "pkglist":
+		runPkgList(c, r, work, &o)
 	default:
 		panic(harnessError{fmt.Errorf("family %s", c.Fam)})
 	}
